@@ -267,6 +267,126 @@ Section Fresh.
   Qed.
 End Fresh.
 
+(* ======================================================================================
+   C03_roundtrip: the class table generated from a document's object schemas meets every hypothesis
+   of C16_decode_encode, hence every schema-conforming document round-trips
+   ====================================================================================== *)
+Definition opt_arg_shape (T : ty) : bool := match T with TOpt _ | TDict TAny | TAny => false | _ => true end.
+
+Lemma py_type_ty_facts : forall n,
+  opt_arg_shape (py_type_ty n) = true /\ ty_classes (py_type_ty n) = [].
+Proof.
+  intro n. unfold py_type_ty.
+  repeat match goal with |- context [if ?b then _ else _] => destruct b end; split; reflexivity.
+Qed.
+
+Lemma resolve_string_facts : forall fmt,
+  ty_ok (resolve_string fmt) = true /\ opt_arg_shape (resolve_string fmt) = true /\ ty_classes (resolve_string fmt) = [].
+Proof.
+  intros [[|c f]|]; cbn [resolve_string]; try (repeat split; reflexivity).
+  split; [apply formats_supported|]. unfold resolve_format. apply py_type_ty_facts.
+Qed.
+
+Lemma resolve_facts : forall ids p, pschema_ok ids p = true ->
+  ty_ok (resolve p) = true /\ opt_arg_shape (resolve p) = true /\
+  forall c, In c (ty_classes (resolve p)) -> mem_N c ids = true.
+Proof.
+  intros ids. induction p; cbn [pschema_ok]; intro H; try discriminate.
+  - destruct (resolve_string_facts fmt) as [H1 [H2 H3]]. cbn [resolve]. rewrite H3.
+    split; [exact H1|]. split; [exact H2 | intros c []].
+  - repeat split; intros c [].
+  - repeat split; intros c [].
+  - repeat split; intros c [].
+  - repeat split; intros c [].
+  - destruct (IHp H) as [H1 [_ H3]].
+    destruct p; cbn [resolve] in *; (split; [|split; [reflexivity|]]); try exact H1; try exact H3;
+      try reflexivity; intros c [].
+  - cbn [resolve ty_ok ty_classes]. repeat split. intros c' [<- | []]. exact H.
+  - cbn [resolve ty_ok ty_classes]. repeat split. intros c' [<- | []]. exact H.
+Qed.
+
+Section RoundTripGen.
+  Variable sanitize : str -> str.
+  Variable ss : list oschema.
+  Let ids := map s_id ss.
+  Let ct := map (gen_class sanitize) ss.
+  Hypothesis Hss : forall s, In s ss -> schema_ok ids s.
+
+  Lemma gen_field_in : forall s f, In f (c_fields (gen_class sanitize s)) ->
+    exists p fn, In p (s_props s) /\ f = field_of p fn.
+  Proof.
+    intros s f Hf. unfold gen_class in Hf. cbn [c_fields] in Hf.
+    apply in_map_iff in Hf as [[p [w fn]] [<- Hin]]. cbn [fst snd].
+    exists p, fn. split; [|reflexivity]. apply in_combine_l in Hin.
+    eapply Permutation_in; [apply isort_perm | exact Hin].
+  Qed.
+
+  Lemma lookup_gen : forall c k, lookup_cls ct c = Some k ->
+    exists s, In s ss /\ k = gen_class sanitize s /\ s_id s = c.
+  Proof.
+    intros c k H. unfold lookup_cls in H. apply find_some in H as [Hin He].
+    apply N.eqb_eq in He. unfold ct in Hin. apply in_map_iff in Hin as [s [<- Hs]].
+    exists s. split; [exact Hs|]. split; [reflexivity | exact He].
+  Qed.
+
+  Lemma lookup_exists : forall c, mem_N c ids = true -> lookup_cls ct c <> None.
+  Proof.
+    intros c H. unfold mem_N in H. apply existsb_exists in H as [c' [Hin He]].
+    apply N.eqb_eq in He. subst c'. unfold ids in Hin. apply in_map_iff in Hin as [s [Hid Hs]].
+    unfold lookup_cls. intro Hn.
+    assert (Hf := find_none _ _ Hn (gen_class sanitize s)).
+    cbn [gen_class c_id] in Hf. rewrite Hid, N.eqb_refl in Hf.
+    assert (true = false) by (apply Hf; unfold ct; apply in_map; exact Hs). discriminate.
+  Qed.
+
+  Lemma field_of_ty : forall p fn,
+    f_ty (field_of p fn) = resolve (p_schema p) \/ f_ty (field_of p fn) = TOpt (resolve (p_schema p)).
+  Proof. intros p fn. cbn [field_of f_ty]. destruct (p_required p && negb (p_nullable p)); auto. Qed.
+
+  Lemma gen_ct_ok : ct_ok ct.
+  Proof.
+    intros c k Hk. destruct (lookup_gen c k Hk) as [s [Hs [-> Hid]]].
+    split; [exact Hid|]. destruct (Hss s Hs) as [Hnd Hps].
+    split; [apply maps_bijective_full; exact Hnd|]. split.
+    - intros f Hf. destruct (gen_field_in s f Hf) as [p [fn [Hp ->]]].
+      destruct (resolve_facts ids (p_schema p) (Hps p Hp)) as [H1 [H2 _]].
+      destruct (field_of_ty p fn) as [-> | ->]; [exact H1|].
+      cbn [ty_ok]. rewrite H1. unfold opt_arg_shape in H2. exact H2.
+    - intros f c' Hf Hc. destruct (gen_field_in s f Hf) as [p [fn [Hp ->]]].
+      destruct (resolve_facts ids (p_schema p) (Hps p Hp)) as [_ [_ H3]].
+      apply lookup_exists. apply H3.
+      destruct (field_of_ty p fn) as [E | E]; rewrite E in Hc; exact Hc.
+  Qed.
+
+  Lemma gen_defaults_ok : defaults_ok ct.
+  Proof.
+    intros c k f d Hk Hf Hd. destruct (lookup_gen c k Hk) as [s [Hs [-> _]]].
+    destruct (gen_field_in s f Hf) as [p [fn [Hp ->]]].
+    cbn [field_of f_default f_ty] in *.
+    destruct (p_required p) eqn:Er; [discriminate|]. cbn [andb].
+    destruct (p_schema p) as [fmt| | | |vals|items|c1|c1|v0] eqn:Ep; inversion Hd; subst d;
+      try (left; split; [reflexivity | eexists; reflexivity]).
+    right. left. split; [reflexivity|]. cbn [resolve].
+    destruct items; eexists; right; reflexivity.
+  Qed.
+
+  (* every document conforming to a generated model round-trips through the bundled converter *)
+  Theorem roundtrip_gen :
+    forall b64dec b64enc dt_parse date_parse uuid_parse time_parse int_of_str float_of_str str_of_json sreg ureg,
+      (forall b, b64dec (b64enc b) = Some b) -> all_hooked ct sreg -> all_hooked ct ureg ->
+      forall c j, conforms b64enc dt_parse date_parse uuid_parse time_parse ct (TData c) j ->
+      exists v j',
+        structure b64dec dt_parse date_parse uuid_parse time_parse int_of_str float_of_str str_of_json ct sreg j (TData c) = Ok v /\
+        unstructure b64enc ct ureg v (TData c) = Ok j' /\ rt_rel ct (TData c) j j'.
+  Proof.
+    intros until ureg. intros Hb Hs Hu c j Hc.
+    destruct (decode_encode_all b64dec b64enc dt_parse date_parse uuid_parse time_parse int_of_str float_of_str
+                str_of_json ct sreg ureg Hb gen_ct_ok Hs Hu gen_defaults_ok j (TData c) eq_refl Hc)
+      as [v [j' [H1 [H2 [H3 _]]]]].
+    exists v, j'. repeat split; assumption.
+  Qed.
+End RoundTripGen.
+
 (* non-vacuity: three properties that sanitize to the same name get distinct fields and inverse maps *)
 Definition san_demo (s : str) : str := [117;115;101;114;95;105;100].     (* every name -> "user_id" *)
 Definition s_demo : oschema :=
@@ -279,4 +399,26 @@ Lemma maps_demo : NoDup (map p_name (s_props s_demo)) /\ nodupb (map snd (names_
 Proof.
   split; [|split; vm_compute; reflexivity].
   cbn. repeat constructor; cbn; intuition discriminate.
+Qed.
+
+(* non-vacuity of C03_roundtrip: the demo schema is in the fragment and {"userId": 5} conforms to its model *)
+Lemma s_demo_ok : schema_ok [0] s_demo.
+Proof.
+  split; [apply maps_demo|]. intros p Hp. cbn in Hp. destruct Hp as [<-|[<-|[<-|[]]]]; reflexivity.
+Qed.
+
+Definition ct_gen_demo : list cls := [gen_class san_demo s_demo].
+Definition j_gen_demo : json := JObj [([117;115;101;114;73;100], JInt 5)].
+
+Lemma j_gen_demo_conforms : forall b64enc dt_parse date_parse uuid_parse time_parse,
+  conforms b64enc dt_parse date_parse uuid_parse time_parse ct_gen_demo (TData 0) j_gen_demo.
+Proof.
+  intros. apply (C_data _ _ _ _ _ _ 0 (gen_class san_demo s_demo)); [reflexivity | | |].
+  - cbn. repeat constructor. intros [].
+  - intros key v [H | []]. inversion H; subst.
+    exists (field_of {| p_name := [117;115;101;114;73;100]; p_required := true; p_nullable := false; p_schema := PInt |}
+                     [117;115;101;114;95;105;100]).
+    split; [vm_compute; left; reflexivity|]. split; [vm_compute; reflexivity | apply C_int].
+  - intros f Hf Hd. vm_compute in Hf. destruct Hf as [<-|[<-|[<-|[]]]]; vm_compute in Hd; try discriminate.
+    vm_compute. left. reflexivity.
 Qed.
